@@ -134,8 +134,8 @@ package jet
 //@   props C02 C04
 //@   requires PInv(t)
 //@   modifies @Parse
-//@   loop 0 invariant PInv(t) && t.peekCount <= 2 && left != nil && WFTag(left)
-//@   ensures PInv(t) && t.peekCount <= 2 && result0 != nil && WFTag(result0)
+//@   loop 0 invariant PInv(t) && t.peekCount <= 2 && left != nil && WFTag(left) && fresh(left)
+//@   ensures PInv(t) && t.peekCount <= 2 && result0 != nil && WFTag(result0) && fresh(result0)
 //@   ensures [maximal-munch] {C04} result1.typ != itemAnd && result1.typ != itemOr
 //@   callsite (*Template).newLogicalExpr 0 requires [operator-of-this-level-left-associative] {C04} (item.typ == itemAnd || item.typ == itemOr) && left == caller.left && right == lastret("(*Template).comparativeExpression", 0) && item == caller.endtoken
 //@   callsite (*Template).logicalExpression count 0
@@ -152,8 +152,8 @@ package jet
 //@   props C02 C04
 //@   requires PInv(t)
 //@   modifies @Parse
-//@   loop 0 invariant PInv(t) && t.peekCount <= 2 && left != nil && WFTag(left)
-//@   ensures PInv(t) && t.peekCount <= 2 && result0 != nil && WFTag(result0)
+//@   loop 0 invariant PInv(t) && t.peekCount <= 2 && left != nil && WFTag(left) && fresh(left)
+//@   ensures PInv(t) && t.peekCount <= 2 && result0 != nil && WFTag(result0) && fresh(result0)
 //@   ensures [maximal-munch] {C04} result1.typ != itemEquals && result1.typ != itemNotEquals
 //@   callsite (*Template).newComparativeExpr 0 requires [operator-of-this-level-left-associative] {C04} (item.typ == itemEquals || item.typ == itemNotEquals) && left == caller.left && right == lastret("(*Template).numericComparativeExpression", 0) && item == caller.endtoken
 //@   callsite (*Template).logicalExpression count 0
@@ -170,8 +170,8 @@ package jet
 //@   props C02 C04
 //@   requires PInv(t)
 //@   modifies @Parse
-//@   loop 0 invariant PInv(t) && t.peekCount <= 2 && left != nil && WFTag(left)
-//@   ensures PInv(t) && t.peekCount <= 2 && result0 != nil && WFTag(result0)
+//@   loop 0 invariant PInv(t) && t.peekCount <= 2 && left != nil && WFTag(left) && fresh(left)
+//@   ensures PInv(t) && t.peekCount <= 2 && result0 != nil && WFTag(result0) && fresh(result0)
 //@   ensures [maximal-munch] {C04} result1.typ != itemGreat && result1.typ != itemGreatEquals && result1.typ != itemLess && result1.typ != itemLessEquals
 //@   callsite (*Template).newNumericComparativeExpr 0 requires [operator-of-this-level-left-associative] {C04} (item.typ == itemGreat || item.typ == itemGreatEquals || item.typ == itemLess || item.typ == itemLessEquals) && left == caller.left && right == lastret("(*Template).additiveExpression", 0) && item == caller.endtoken
 //@   callsite (*Template).logicalExpression count 0
@@ -188,8 +188,8 @@ package jet
 //@   props C02 C04
 //@   requires PInv(t)
 //@   modifies @Parse
-//@   loop 0 invariant PInv(t) && t.peekCount <= 2 && left != nil && WFTag(left)
-//@   ensures PInv(t) && t.peekCount <= 2 && result0 != nil && WFTag(result0)
+//@   loop 0 invariant PInv(t) && t.peekCount <= 2 && left != nil && WFTag(left) && fresh(left)
+//@   ensures PInv(t) && t.peekCount <= 2 && result0 != nil && WFTag(result0) && fresh(result0)
 //@   ensures [maximal-munch] {C04} result1.typ != itemAdd && result1.typ != itemMinus
 //@   callsite (*Template).newAdditiveExpr 0 requires [operator-of-this-level-left-associative] {C04} (item.typ == itemAdd || item.typ == itemMinus) && left == caller.left && right == lastret("(*Template).multiplicativeExpression", 0) && item == caller.endtoken
 //@   callsite (*Template).logicalExpression count 0
@@ -206,8 +206,8 @@ package jet
 //@   props C02 C04
 //@   requires PInv(t)
 //@   modifies @Parse
-//@   loop 0 invariant PInv(t) && t.peekCount <= 2 && left != nil && WFTag(left)
-//@   ensures PInv(t) && t.peekCount <= 2 && result0 != nil && WFTag(result0)
+//@   loop 0 invariant PInv(t) && t.peekCount <= 2 && left != nil && WFTag(left) && fresh(left)
+//@   ensures PInv(t) && t.peekCount <= 2 && result0 != nil && WFTag(result0) && fresh(result0)
 //@   ensures [maximal-munch] {C04} result1.typ != itemMul && result1.typ != itemDiv && result1.typ != itemMod
 //@   callsite (*Template).newMultiplicativeExpr 0 requires [operator-of-this-level-left-associative] {C04} (item.typ == itemMul || item.typ == itemDiv || item.typ == itemMod) && left == caller.left && right == lastret("(*Template).unaryExpression", 0) && item == caller.endtoken
 //@   callsite (*Template).logicalExpression count 0
@@ -224,7 +224,7 @@ package jet
 //@   props C02 C04
 //@   requires PInv(t)
 //@   modifies @Parse
-//@   ensures PInv(t) && t.peekCount <= 2 && result0 != nil && WFTag(result0)
+//@   ensures PInv(t) && t.peekCount <= 2 && result0 != nil && WFTag(result0) && fresh(result0)
 //@   callsite (*Template).newAdditiveExpr 0 requires [unary-sign-binds-tightest] {C04} left == nil && right == lastret("(*Template).operand", 0) && (item.typ == itemMinus || item.typ == itemAdd)
 //@   callsite (*Template).newNotExpr 0 requires [not-applies-to-a-comparison] {C04} expr == lastret("(*Template).comparativeExpression", 0)
 //@   callsite (*Template).operand count 2
@@ -238,7 +238,7 @@ package jet
 //@   props C02 C04 C06
 //@   requires PInv(t)
 //@   modifies @Parse
-//@   ensures PInv(t) && t.peekCount <= 2 && result0 != nil && WFTag(result0)
+//@   ensures PInv(t) && t.peekCount <= 2 && result0 != nil && WFTag(result0) && fresh(result0)
 //@   callsite (*Template).newTernaryExpr 0 requires [ternary-nests-to-the-right] {C04} boolean == lastret("(*Template).logicalExpression", 0) && right == lastret("(*Template).parseExpression", 0) && left != nil
 //@   callsite (*Template).logicalExpression count 1
 //@   callsite (*Template).parseExpression count 2
@@ -248,7 +248,7 @@ package jet
 //@   props C02
 //@   requires PInv(t)
 //@   modifies @Parse
-//@   ensures PInv(t) && result != nil && WFTag(result)
+//@   ensures PInv(t) && result != nil && WFTag(result) && fresh(result)
 
 //@ func (*Template).newNumber
 //@   props C02 C04 C12
@@ -269,7 +269,7 @@ package jet
 //@   props C02 C06
 //@   requires PInv(t)
 //@   modifies @Parse
-//@   ensures PInv(t) && WFTag(result)
+//@   ensures PInv(t) && WFTag(result) && (result != nil ==> fresh(result))
 
 //@ func (*ChainNode).Add
 //@   props C02
@@ -284,9 +284,9 @@ package jet
 //@   props C02 C06 C14
 //@   requires PInv(t)
 //@   modifies @Parse
-//@   loop 0 invariant PInv(t) && node != nil && WFTag(node)
-//@   loop 1 invariant PInv(t) && node != nil && WFTag(node)
-//@   ensures PInv(t) && result != nil && WFTag(result)
+//@   loop 0 invariant PInv(t) && node != nil && WFTag(node) && fresh(node)
+//@   loop 1 invariant PInv(t) && node != nil && WFTag(node) && fresh(node)
+//@   ensures PInv(t) && result != nil && WFTag(result) && fresh(result)
 
 //@ func (*Template).parseArguments
 //@   props C02 C14
@@ -318,11 +318,13 @@ package jet
 //@   ensures PInv(t) && pipe != nil
 
 //@ func (*Template).blockParametersList
-//@   props C02 C08
+//@   props C02 C08 C20
 //@   requires PInv(t)
 //@   modifies @Parse
-//@   loop 0 invariant PInv(t) && block != nil
+//@   loop 0 invariant PInv(t) && block != nil && fresh(block)
+//@   loop 0 invariant [parameter-expressions-are-new-nodes] {C20,C08} forall(k, 0, len(block.List), block.List[k].Expression == nil || fresh(block.List[k].Expression))
 //@   ensures PInv(t) && result != nil
+//@   ensures [parameter-expressions-are-new-nodes] {C20,C08} fresh(result) && forall(k, 0, len(result.List), result.List[k].Expression == nil || fresh(result.List[k].Expression))
 
 // ---- statements ------------------------------------------------------------------------------------------------
 
